@@ -2,6 +2,7 @@ package checks
 
 import (
 	"fmt"
+	"math/rand"
 	"sync"
 	"sync/atomic"
 	"time"
@@ -9,6 +10,7 @@ import (
 	"verifharness/kit"
 
 	"github.com/cnotch/ipchub/av/format"
+	"github.com/cnotch/ipchub/av/format/flv"
 	"github.com/cnotch/ipchub/config"
 	"github.com/cnotch/ipchub/media"
 )
@@ -181,6 +183,216 @@ func c02Classify(seq []pubPkt, rec []int, lo, hi int, cacheOn, h265 bool) string
 		}
 	}
 	return "no-valid-cut"
+}
+
+// ---------- FLV variant: forced interleavings of one WriteFlvTag with one FLV join, and seeded stress.
+// Tags are identified by an id inside their data because the cache replays re-stamped COPIES of the header tags.
+
+type c02flvItem struct {
+	tag *flv.Tag
+	pp  pubPkt
+}
+
+func c02FlvBuild(rng *rand.Rand, idBase uint64) []c02flvItem {
+	var out []c02flvItem
+	id := idBase
+	add := func(tagType byte, b0, b1 byte, ts uint32, pp pubPkt, script bool) {
+		id++
+		body := make([]byte, 24)
+		kit.FillBody(body, id)
+		var d []byte
+		if script {
+			// AMF0 string "onMetaData" + the id bytes (only IsMetadata() matters to the cache)
+			d = append([]byte{0x02, 0x00, 0x0a}, []byte("onMetaData")...)
+			d = append(d, body...)
+		} else {
+			d = append([]byte{b0, b1, 0, 0, 0}, body...)
+		}
+		pp.idx = len(out)
+		pp.desc = fmt.Sprintf("%s@%d", pp.desc, ts)
+		out = append(out, c02flvItem{&flv.Tag{TagType: tagType, DataSize: uint32(len(d)), Timestamp: ts, Data: d}, pp})
+	}
+	ts := uint32(1000 + rng.Intn(5000))
+	headers := func() {
+		add(flv.TagTypeAmf0Data, 0, 0, ts, pubPkt{hasVPS: true, pureParm: true, video: true, desc: "META"}, true)
+		add(flv.TagTypeVideo, 0x17, 0, ts, pubPkt{hasSPS: true, pureParm: true, video: true, desc: "VHDR"}, false)
+		add(flv.TagTypeAudio, 0xaf, 0, ts, pubPkt{hasPPS: true, pureParm: true, video: true, desc: "AHDR"}, false)
+	}
+	headers()
+	for g := 0; g < 2+rng.Intn(3); g++ {
+		if g > 0 && rng.Intn(2) == 0 {
+			headers() // refreshed sequence headers
+		}
+		add(flv.TagTypeVideo, 0x17, 1, ts, pubPkt{video: true, hasSlice: true, keyAny: true, keyStart: true, desc: "K"}, false)
+		ts += 40
+		for k := 0; k < 1+rng.Intn(4); k++ {
+			if rng.Intn(3) == 0 {
+				add(flv.TagTypeAudio, 0xaf, 1, ts, pubPkt{desc: "A"}, false)
+			}
+			add(flv.TagTypeVideo, 0x27, 1, ts, pubPkt{video: true, hasSlice: true, desc: "P"}, false)
+			ts += 40
+		}
+	}
+	add(flv.TagTypeAudio, 0xaf, 1, ts, pubPkt{desc: "sentinel"}, false)
+	return out
+}
+
+func c02FlvID(t *flv.Tag) (uint64, bool) {
+	d := t.Data
+	if t.TagType == flv.TagTypeAmf0Data {
+		if len(d) < 13+12 {
+			return 0, false
+		}
+		return kit.CheckBody(d[13:])
+	}
+	if len(d) < 5+12 {
+		return 0, false
+	}
+	return kit.CheckBody(d[5:])
+}
+
+func c02RunFLV(c *kit.Ctx, watch time.Duration) {
+	type ordering struct {
+		name, heldPoint string
+		holdJoin        bool
+	}
+	ords := []ordering{
+		{"flv-join-held-at-begin|publish-complete", "media.join.begin", true},
+		{"flv-join-held-after-snapshot|publish-complete", "media.join.snapshotted", true},
+		{"flv-join-held-after-register|publish-complete", "media.join.registered", true},
+		{"flv-publish-held-after-cache|join-complete", "media.flvwrite.cached", false},
+		{"flv-publish-held-after-broadcast|join-complete", "media.flvwrite.sent", false},
+	}
+	nrep := c.Pick(6, 150)
+	fcase := 0
+	for rep := 0; rep < nrep; rep++ {
+		for _, od := range ords {
+			for _, cacheOn := range []bool{true, false} {
+				fcase++
+				if !c.Mine(fcase) {
+					continue
+				}
+				rng := c.SubRng("c02flv", fcase)
+				items := c02FlvBuild(rng, uint64(fcase)<<24|1<<62)
+				n := len(items) - 1
+				seq := make([]pubPkt, len(items))
+				byID := map[uint64]int{}
+				for i, it := range items {
+					seq[i] = it.pp
+					id, _ := c02FlvID(it.tag)
+					byID[id] = i
+				}
+				k := 3 + rng.Intn(n-3) // the tag racing with the join (after the initial headers)
+				scen := fmt.Sprintf("forced/%s/cache=%v", od.name, cacheOn)
+				c.Pre(scen)
+				s := c02Stream("H264", cacheOn)
+				for i := 0; i < k; i++ {
+					s.WriteFlvTag(items[i].tag)
+				}
+				r := &kit.RecConsumer{}
+				join := func() { s.StartConsume(r, media.FLVPacket, "flv") }
+				publish := func() { s.WriteFlvTag(items[k].tag) }
+				var match func([]interface{}) bool
+				held, other := join, publish
+				if od.holdJoin {
+					match = func(a []interface{}) bool { return len(a) > 1 && a[1] == r }
+				} else {
+					held, other = publish, join
+					match = func(a []interface{}) bool { return len(a) > 1 && a[1] == items[k].tag }
+				}
+				g := kit.H.Gate(od.heldPoint, match)
+				done := make(chan struct{})
+				go func() { held(); close(done) }()
+				if !g.WaitArrived(watch) {
+					g.Release()
+					<-done
+					s.Close()
+					c.Inconclusive("gate not reached: " + scen)
+					continue
+				}
+				odone := make(chan struct{})
+				go func() { other(); close(odone) }()
+				select {
+				case <-odone:
+					c.SetAdd("forced_outcomes", od.heldPoint+":counterpart-ran-inside-window")
+				case <-time.After(150 * time.Millisecond):
+					c.SetAdd("forced_outcomes", od.heldPoint+":counterpart-blocked-until-release(serialised)")
+				}
+				g.Release()
+				<-done
+				<-odone
+				for i := k + 1; i <= n; i++ {
+					s.WriteFlvTag(items[i].tag)
+				}
+				sentID, _ := c02FlvID(items[n].tag)
+				drained := waitUntil(func() bool {
+					it := r.Items()
+					if len(it) == 0 {
+						return false
+					}
+					id, _ := c02FlvID(it[len(it)-1].Pack.(*flv.Tag))
+					return id == sentID
+				}, watch)
+				s.Close()
+				c.Eval(1)
+				c.Distinct(fmt.Sprintf("%s/racing=%s", scen, items[k].pp.desc[:1]))
+				c.SetAdd("interleavings_seen", scen)
+				if !drained {
+					c.Inconclusive("sentinel not delivered: " + scen)
+					continue
+				}
+				var rec []int
+				bad := false
+				var tss []uint32
+				for _, it := range r.Items() {
+					t := it.Pack.(*flv.Tag)
+					id, ok := c02FlvID(t)
+					i, known := byID[id]
+					if !ok || !known {
+						bad = true
+						break
+					}
+					rec = append(rec, i)
+					tss = append(tss, t.Timestamp)
+				}
+				detail := map[string]interface{}{"ordering": od.name, "cache_gop": cacheOn, "racing_tag": k, "sequence": describeSeq2(seq), "received": rec}
+				if bad {
+					c.Violation("C02:flv:unknown-or-damaged-tag-delivered", detail)
+					continue
+				}
+				if ok, why := c02Judge(seq, rec, k, k+1, cacheOn, true, c02model{}, 0); !ok {
+					detail["why"] = why
+					c.Violation("C02:flv:"+c02Classify(seq, rec, k, k+1, cacheOn, true)+":forced", detail)
+					continue
+				}
+				// replayed headers carry the timestamp of the first replayed media tag (when a GOP is replayed)
+				firstMedia := -1
+				for j, i := range rec {
+					if !seq[i].pureParm {
+						firstMedia = j
+						break
+					}
+				}
+				if cacheOn && firstMedia > 0 && rec[firstMedia] < k {
+					for j := 0; j < firstMedia; j++ {
+						if tss[j] != tss[firstMedia] {
+							detail["header_ts"], detail["first_media_ts"] = tss[j], tss[firstMedia]
+							c.Violation("C02:flv:replayed-header-timestamp-differs-from-first-replayed-media-tag", detail)
+							break
+						}
+					}
+				}
+			}
+		}
+	}
+}
+
+func describeSeq2(seq []pubPkt) []string {
+	var out []string
+	for _, p := range seq {
+		out = append(out, fmt.Sprintf("%d:%s", p.idx, p.desc))
+	}
+	return out
 }
 
 func c02Indices(seq []pubPkt, items []kit.RecItem, byPtr map[format.Packet]int) ([]int, bool) {
@@ -486,5 +698,6 @@ func runC02(c *kit.Ctx) {
 			}
 		}
 	}
+	c02RunFLV(c, watch)
 	config.VerifSet(false, false, "", 5)
 }
